@@ -18,9 +18,9 @@ def sh(cmd):
     return subprocess.run(cmd, shell=True, capture_output=True, text=True).stdout
 
 
-def extract(unit, tmp):
-    obj = os.path.join(tmp, unit + '.o')
-    r = subprocess.run('clang -O1 -g0 -ffunction-sections -fdata-sections -DENABLE_LOCALES -I%s -c %s/%s.c -o %s' % (REPO, REPO, unit, obj),
+def extract(unit, tmp, opt='-O1'):
+    obj = os.path.join(tmp, unit + opt + '.o')
+    r = subprocess.run('clang ' + opt + ' -g0 -ffunction-sections -fdata-sections -DENABLE_LOCALES -I%s -c %s/%s.c -o %s' % (REPO, REPO, unit, obj),
                        shell=True, capture_output=True, text=True)
     if r.returncode != 0:
         sys.stderr.write(r.stderr)
@@ -107,11 +107,18 @@ def extract(unit, tmp):
 def main():
     with tempfile.TemporaryDirectory(prefix='vfp') as tmp:
         inv, acc, calls, pubs = {}, {}, {}, set()
-        for unit in ('cJSON', 'cJSON_Utils'):
-            i, a, c, p = extract(unit, tmp)
+        # unoptimised code shows every access the source makes (the project's default build has no -O); optimised code shows what
+        # an optimiser may add (hoisted loads, merged stores): the footprint is the union
+        for unit, opt in (('cJSON', '-O0'), ('cJSON_Utils', '-O0'), ('cJSON', '-O1'), ('cJSON_Utils', '-O1')):
+            i, a, c, p = extract(unit, tmp, opt)
             inv.update(i); pubs |= p
             for k, v in a.items():
-                acc.setdefault(k, {}).update(v)
+                for s2, kinds in v.items():
+                    if opt == '-O0' and s2 == 'global_hooks':
+                        # unoptimised code passes &global_hooks to the static helpers, whose parameter is a pointer to const: a read
+                        # (what is done through a pointer is decided by the ThreadSanitizer runs, as for every address-taken object)
+                        kinds = kinds.replace('a', 'r')
+                    acc.setdefault(k, {})[s2] = ''.join(sorted(set(acc.get(k, {}).get(s2, '') + kinds)))
             for k, v in c.items():
                 calls.setdefault(k, set()).update(v)
     out = {}
